@@ -50,6 +50,6 @@ with open(f'{root}/seeded/RESULTS.md', 'w') as f:
     c = sum(1 for k, _, m, r in rows if r is not None and m['verif']['caught_by'])
     t = sum(1 for k, _, m, r in rows if r is not None and m.get('property') in m['verif']['caught_by'])
     s = sum(1 for k, _, m, r in rows if r is not None and k == 'seeded')
-    f.write('\n† result recorded by the previous sensitivity run (harness as of /verif commit f0edb69, /repo e0b2afd); the last run (final harness, /repo 05b78c5) covered the changes of round 4 (H, I), the revert of 05b78c5, the patches rebased onto 05b78c5 and the first 24 changes in alphabetical order.\n')
+    f.write('\n† result recorded by the previous sensitivity run (harness as of /verif commit f0edb69, /repo e0b2afd); the last run (final harness, /repo 05b78c5) covered the changes of round 4 (H, I), the revert of 05b78c5, the patches rebased onto 05b78c5 and the first 24 changes in alphabetical order. Round 5 (J, K) was run afterwards with the harness of that round: every change against the check of its own property, and the four changes that check missed at first against all twenty checks (then again against the strengthened check).\n')
     f.write(f'\n{c} of {n} changes are caught by at least one check; {t} of the {s} sub-agent changes are caught by the check of the property they target.\n')
 print('written', len(rows))
